@@ -396,6 +396,10 @@ func SetSlice(dest reflect.Value, objects interface{}) error {
 	v := EnsurePackValue(objects)
 	if h, ok := v.Interface().(*_refHolder); ok {
 		h.add(dest)
+		// a reference to a list that is already complete is never notified again: take its value now
+		if cv, err := ConvertSliceValueType(destTyp, h.value); err == nil {
+			SetValue(dest, cv)
+		}
 		return nil
 	}
 
